@@ -11,7 +11,7 @@ CHECK = {
  'rule': 'direct family: per (limits, maxPwmChangePerCycle, map) the real UpdateFanSpeed is executed for every (curve value 0..255, previous request in [min,max]) and every '
          '(curve value, fresh controller with device pwm 0..255); steady value S(v) is what plain direct produces; every start must reach S(v) within ceil(255/m)+2 cycles, '
          'moving monotonically by at most m per cycle. PID (default gains): every history of up to 2 (quick) / 3 (thorough) phases from a catalogue (idle at 0/255 for 1 s, 1 min, 1 h, '
-         'step, saw-tooth) x curve values x tick periods x limits, in virtual time; must settle within 3*K_fresh+10 cycles (K_fresh = worst settle index of fresh controllers in the same run) '
+         'step, saw-tooth, 10-minute start-up gap) x curve values x tick periods (quick: 200 ms, and 2 s with one-phase histories; thorough: 50 ms, 200 ms, 2 s) x limits, in virtual time; must settle within 3*K_fresh+10 cycles (K_fresh = worst settle index of fresh controllers in the same run) '
          'within 1 step of S(v). distinct_nontrivial = (curve value, start state) pairs / (history, curve value) runs that satisfied the oracle.',
  'assumptions': COMMON_ASSUME + ['settled := request constant for ceil(0.5/(I*dt))+30 cycles (worst-case integral creep for a remaining error of 1)'],
  'level_text': 'direct algorithms: every state and every input of the (memoryless) controller step, i.e. the complete transition relation, decided exhaustively per configuration; PID: bounded exhaustive catalogue',
